@@ -11,8 +11,9 @@ def _raw(font, tag):
     return font.reader[tag] if hasattr(font, "reader") and font.reader and tag in font.reader else None
 
 
-def validate(data: bytes, expect_names=None, ctx=""):
-    """-> list of problem strings.  expect_names: True/False/None = glyph names requested / not / unknown."""
+def validate(data: bytes, expect_names=None, ctx="", bitmap_gids=None):
+    """-> list of problem strings.  expect_names: True/False/None = glyph names requested / not / unknown.
+    bitmap_gids: glyph ids that must carry exactly one bitmap (the colour glyphs of a CBDT / sbix build)."""
     from fontTools.ttLib import TTFont
 
     problems = []
@@ -199,4 +200,15 @@ def validate(data: bytes, expect_names=None, ctx=""):
         dup = [k for k, v in covered.items() if v != 1]
         if dup:
             problems.append(f"{ctx}glyphs with several bitmaps at one ppem: {dup[:4]}")
+        if bitmap_gids is not None:
+            have = {rev[nm] for (_ppem, nm) in covered}
+            missing = sorted(set(bitmap_gids) - have)
+            if missing:
+                problems.append(f"{ctx}colour glyph ids {missing} have no bitmap in CBDT (exactly one per glyph expected)")
+    if "sbix" in font and bitmap_gids is not None:
+        order = font.getGlyphOrder()
+        for ppem, strike in font["sbix"].strikes.items():
+            missing = sorted(g for g in bitmap_gids if not (strike.glyphs.get(order[g]) and strike.glyphs[order[g]].imageData))
+            if missing:
+                problems.append(f"{ctx}colour glyph ids {missing} have no image in the sbix strike at {ppem} ppem")
     return problems
